@@ -76,11 +76,90 @@ def project_files():
     return fs
 
 
+
+# ------------------------------------------------------------------------------------------------
+# source translation: coq/Src/SrcWire.v is generated from /repo's Go source by harness/cmd/go2coq
+
+SRC_FUNCS = ["SizeOfVarint", "SizeOfTagKey", "SizeOfZigZag", "EncodeVarint", "EncodeTag", "EncodeZigZag32", "EncodeZigZag64",
+             "DecodeVarint", "DecodeZigZag32", "DecodeZigZag64", "DecodeFixed32", "DecodeFixed64"]
+# files whose checking depends on the generated file: a failure confined to these only concerns the properties stated there
+SRC_TIED = ("Src/SrcWire.v", "Src/SrcLink.v", "Src/SrcEncProofs.v", "Src/SrcDecProofs.v", "Src/SrcCompose.v", "Props/C01src.v", "Props/C02src.v")
+
+
+def _src_hash():
+    h = hashlib.sha256()
+    files = sorted(f for f in os.listdir(REPO) if f.endswith(".go") and not f.endswith("_test.go"))
+    g2c = os.path.join(VERIF, "harness", "cmd", "go2coq")
+    for p in [os.path.join(REPO, f) for f in files] + [os.path.join(g2c, f) for f in sorted(os.listdir(g2c))]:
+        h.update(p.encode()); h.update(open(p, "rb").read())
+    h.update(" ".join(SRC_FUNCS).encode())
+    return h.hexdigest()
+
+
+def regen_src():
+    """Regenerate coq/Src/SrcWire.v from REPO's working tree. Returns {"ok", "regenerated", "changed", "detail"}.
+    The Go package is only re-translated when its sources (or the translator) changed since the last translation."""
+    target = os.path.join(COQ, "Src", "SrcWire.v")
+    stamp = os.path.join(WORK, "srcwire.stamp")
+    os.makedirs(WORK, exist_ok=True)
+    cur = hashlib.sha256(open(target, "rb").read()).hexdigest() if os.path.exists(target) else ""
+    want = _src_hash() + ":" + cur
+    if os.path.exists(stamp) and open(stamp).read() == want:
+        return {"ok": True, "regenerated": False, "changed": False, "detail": ""}
+    os.makedirs(BIN, exist_ok=True)
+    tool = os.path.join(BIN, "go2coq")
+    rc, out = sh(["go", "build", "-o", tool, "./cmd/go2coq"], cwd=os.path.join(VERIF, "harness"), env=GOENV, timeout=600)
+    if rc != 0:
+        return {"ok": False, "regenerated": False, "changed": False, "detail": "go2coq does not build: " + out[-1500:]}
+    tmp = os.path.join(WORK, "SrcWire.v.new")
+    rc, out = sh([tool, REPO, tmp] + SRC_FUNCS, cwd=REPO, env=GOENV, timeout=600)
+    if rc != 0:
+        return {"ok": False, "regenerated": False, "changed": False,
+                "detail": "the translator cannot translate the current source (outside its Go subset, or it does not type-check): " + out[-1500:]}
+    new = open(tmp, "rb").read()
+    changed = not os.path.exists(target) or open(target, "rb").read() != new
+    if changed:
+        with open(target, "wb") as f:
+            f.write(new)
+    with open(stamp, "w") as f:
+        f.write(_src_hash() + ":" + hashlib.sha256(new).hexdigest())
+    return {"ok": True, "regenerated": True, "changed": changed, "detail": ""}
+
+
+def src_counterexamples(res):
+    """The source-level theorems no longer check: evaluate the regenerated translation against the model on boundary inputs
+    inside Coq (Src/SrcSweep.v, vm_compute) and record every input on which they differ - a concrete failing input of the
+    translated source, to go with whatever the differential harness finds on the compiled code."""
+    if not os.path.exists(os.path.join(COQ, "Src", "SrcWire.v")):
+        return
+    rc, out = sh("timeout 300 coqc -Q . CsProto Src/SrcWire.v && timeout 600 coqc -Q . CsProto Src/SrcSweep.v", cwd=COQ, timeout=1000)
+    if rc != 0:
+        res.notes.append("Coq-side sweep of the translated source could not run: " + out[-600:])
+        return
+    flat = re.sub(r"\s+", " ", out)
+    for name, val in re.findall(r"(sweep_\w+) = (\[.*?\]) : list", flat):
+        if val.strip() != "[]":
+            res.failures.append({"property": res.prop, "kind": "oracle", "class": "src-" + name,
+                                 "what": "the Gallina translation of the current Go source (coq/Src/SrcWire.v) differs from the wire model on these inputs "
+                                         "(evaluated in Coq by vm_compute; the model is the one the property theorems are proved about)",
+                                 "case": name + " differing inputs: " + val[:1500], "expected": "no differing input", "got": val[:1500]})
+
+
 def proof_step(res, props_file, thorough=False):
     """Full .vo build of the development, then re-run coqc on the property file to capture
     Print Assumptions.  Records obligations/discharged; any failure goes to res.broken."""
     pf = res.proof
     pf["props_file"] = "coq/" + props_file
+    src_tied = props_file in SRC_TIED
+    # 0. the generated part of the development follows /repo's working tree
+    rg = regen_src()
+    pf["source_translation"] = {"file": "coq/Src/SrcWire.v", "functions": SRC_FUNCS, "retranslated_this_run": rg["regenerated"],
+                                "differs_from_previous": rg["changed"], "ok": rg["ok"]}
+    if not rg["ok"] and src_tied:
+        res.broken.append({"what": "translation of /repo's Go source to Gallina (harness/cmd/go2coq -> coq/Src/SrcWire.v) failed: "
+                                   "the theorems of %s are no longer tied to the source" % props_file, "detail": rg["detail"]})
+        pf["obligations"], pf["discharged"] = 1, 0
+        return False
     # 1. forbidden constructs anywhere in the development that is built
     bad = []
     for rel in project_files():
@@ -93,8 +172,14 @@ def proof_step(res, props_file, thorough=False):
     if not os.path.exists(os.path.join(COQ, "Makefile")):
         sh("coq_makefile -f _CoqProject -o Makefile", cwd=COQ)
     t = time.time()
-    rc, out = sh("timeout 3000 make -j%d" % NCPU, cwd=COQ, timeout=3100)
+    rc, out = sh("timeout 3000 make -j%d -k" % NCPU, cwd=COQ, timeout=3100)
     pf["make_s"] = round(time.time() - t, 1)
+    if rc != 0 and not src_tied:
+        # files that only state / prove facts about the generated translation of the Go source do not concern this property
+        failed = set(re.findall(r"\*\*\* \[(?:[^\]]*:\s*)?([^\]\s:]+)\.vo\]", out))
+        if failed and all(f + ".v" in SRC_TIED for f in failed):
+            pf["ignored_failures_in_source_tied_files"] = sorted(failed)
+            rc = 0
     if rc != 0:
         tail = "\n".join(out.strip().splitlines()[-25:])
         res.broken.append({"what": "Coq development does not build (make)", "detail": tail})
